@@ -6,6 +6,7 @@
    the items contributed, in order.  Together with the stability theorem of ImagePayload the same holds in the final image. *)
 From Coq Require Import List NArith ZArith Arith Lia Bool ZifyNat ZifyN ZifyBool.
 From MDW Require Import Bytes MemWriter Writer Hoare Text MiniDump MiniDumpProofs WComb WCombProofs WFrame GenTypes Generated Plan Image ImageProofs ImageDirProofs ImagePayload.
+From MDW Require Maps ThreadList ThreadListProofs EffPath Modules ThreadNames.
 Import ListNotations.
 Local Open Scope nat_scope.
 
@@ -1250,3 +1251,246 @@ Proof.
   - cbn [l_size] in Hd. rewrite ?repeat_length in Hd. rewrite small_u32_of in Hd; [exact Hd|]. eapply small_le; [|exact Hs3]. exact La.
 Qed.
 Print Assumptions image_sysinfo.
+
+(* ---------- the memory list, explicitly: which extents, in which order ---------- *)
+Definition desc_extent (d : memdesc) : N * N := (md_start d, l_size (md_loc d)).
+Definition thread_extents (c : content) (t : ithread) : list (N * N) :=
+  match it_stack t with Some (v, bs) => [(v, N.of_nat (length bs))] | None => [] end ++
+  match it_ipwin t with Some (a, bs) => if t_crash c t then [(a, N.of_nat (length bs))] else [] | None => [] end.
+Definition region_extent (pr : N * bytes) : N * N := (fst pr, N.of_nat (length (snd pr))).
+
+Lemma run_rel_extents c lo b : forall ts st rs st', run_rel (thread_says c lo) b ts st rs st' ->
+  map desc_extent (fst st') = map desc_extent (fst st) ++ flat_map (thread_extents c) ts.
+Proof.
+  intros ts st rs st' H. induction H as [st|t ts st r st1 rs stF HP _ IH]; [cbn [flat_map]; now rewrite app_nil_r|].
+  rewrite IH. cbn [flat_map]. rewrite app_assoc. f_equal.
+  destruct r as [[tid md] cl]. destruct HP as (_ & _ & H3 & (win & H4 & H5) & _). rewrite H4. rewrite !map_app. f_equal.
+  unfold thread_extents. f_equal.
+  - destruct (it_stack t) as [[v bs]|]; [|reflexivity]. destruct H3 as (Ha & (Hb & _)). cbn [map]. unfold desc_extent. now rewrite Ha, Hb.
+  - destruct (it_ipwin t) as [[a bs]|]; [|now rewrite H5]. destruct (t_crash c t); [|now rewrite H5].
+    destruct H5 as (l & -> & (Hl & _)). cbn [map]. unfold desc_extent. cbn [md_start md_loc]. now rewrite Hl.
+Qed.
+
+Lemma regions_extents lo b : forall regions ds, Forall2 (region_says lo b) regions ds -> map desc_extent ds = map region_extent regions.
+Proof.
+  intros regions ds H. induction H as [|pr d rg ds' (H1 & (H2 & _)) _ IH]; [reflexivity|]. cbn [map]. f_equal; [|exact IH].
+  unfold desc_extent, region_extent. now rewrite H1, H2.
+Qed.
+
+(* In the image of every dump the memory list names, in this order and nothing else: for each thread of the content its stack
+   extent (if stack bytes were stored) and - crash thread only - the extent of the window around the crash instruction pointer;
+   then the extent of every application region. *)
+Theorem image_memory_list_extents c dirs lg s' :
+  image c empty_wst = Ok ((dirs, lg), s') -> small (blen s') ->
+  exists descs off,
+    map desc_extent descs = flat_map (thread_extents c) (ic_threads c) ++ map region_extent (ic_app c) /\
+    slice (w_buf s') off (4 + MEMDESC_SZ * length descs) = le 4 (N.of_nat (length descs)) ++ concat (map enc_memdesc descs) /\
+    nth_error dirs 2 = Some (T_MEMLIST, {| l_rva := N.of_nat off; l_size := (4 + N.of_nat (MEMDESC_SZ * length descs))%N |}).
+Proof.
+  intros E Hs. destruct (image_memory_list c dirs lg s' E Hs) as (rs & blocks & cc & appd & off & Hrel & Hf & Hsl & Hd).
+  exists (blocks ++ appd), off. split; [|split; [exact Hsl|exact Hd]].
+  rewrite map_app. f_equal.
+  - pose proof (run_rel_extents _ _ _ _ _ _ _ Hrel) as He. cbn [fst map app] in He. exact He.
+  - eapply regions_extents; exact Hf.
+Qed.
+Print Assumptions image_memory_list_extents.
+
+(* ---------- world -> content -> image, for the memory list (C07 end to end) ---------- *)
+(* The content of a dump [c] REALISES what the structural model ThreadList says about a world (mappings [ms], per listed thread its
+   stack block and - for the thread a crash context describes - the crash instruction pointer, application regions [app]) when,
+   thread by thread, the stored stack bytes have the block's address and length and the stored window is the model's window. *)
+Definition realises_thread (c : content) (ms : list Maps.minfo) (t : ithread) (tb : ThreadList.tblocks) : Prop :=
+  match it_stack t, ThreadList.tb_stack tb with
+  | Some (v, bs), Some (v', n) => v = v' /\ N.of_nat (length bs) = n
+  | None, None => True
+  | _, _ => False
+  end /\
+  match ThreadList.tb_crash_ip tb with
+  | Some ip => t_crash c t = true /\
+               match it_ipwin t, ThreadList.ip_window ms ip with
+               | Some (a, bs), Some (a', n) => a = a' /\ N.of_nat (length bs) = n
+               | None, None => True
+               | _, _ => False
+               end
+  | None => t_crash c t = false \/ it_ipwin t = None
+  end.
+
+Lemma realised_extents c ms : forall ts tbs, Forall2 (realises_thread c ms) ts tbs ->
+  flat_map (thread_extents c) ts = flat_map (ThreadList.thread_blocks ms) tbs.
+Proof.
+  intros ts tbs H. induction H as [|t tb ts tbs (H1 & H2) _ IH]; [reflexivity|]. cbn [flat_map]. rewrite IH. f_equal.
+  unfold thread_extents, ThreadList.thread_blocks. f_equal.
+  - destruct (it_stack t) as [[v bs]|]; destruct (ThreadList.tb_stack tb) as [[v' n]|]; try contradiction; [|reflexivity].
+    destruct H1 as (-> & ->). reflexivity.
+  - destruct (ThreadList.tb_crash_ip tb) as [ip|].
+    + destruct H2 as (Hc & H2). rewrite Hc. destruct (it_ipwin t) as [[a bs]|]; destruct (ThreadList.ip_window ms ip) as [[a' n]|]; try contradiction; [|reflexivity].
+      destruct H2 as (-> & ->). reflexivity.
+    + destruct H2 as [Hc|Hn]; [rewrite Hc; destruct (it_ipwin t) as [[a bs]|]; reflexivity|rewrite Hn; reflexivity].
+Qed.
+
+(* End to end: whenever the content realises the world, the memory list of the final image names exactly the regions the
+   structural model ThreadList.memory_list prescribes for that world - the stacks of the listed threads in list order, the window
+   around the crash instruction pointer right after the crash thread's stack, the application regions last - and nothing else. *)
+Theorem image_memory_list_of_world c ms tbs app dirs lg s' :
+  image c empty_wst = Ok ((dirs, lg), s') -> small (blen s') ->
+  Forall2 (realises_thread c ms) (ic_threads c) tbs -> map region_extent (ic_app c) = app ->
+  exists descs off,
+    map desc_extent descs = ThreadList.memory_list ms tbs app /\
+    slice (w_buf s') off (4 + MEMDESC_SZ * length descs) = le 4 (N.of_nat (length descs)) ++ concat (map enc_memdesc descs) /\
+    nth_error dirs 2 = Some (T_MEMLIST, {| l_rva := N.of_nat off; l_size := (4 + N.of_nat (MEMDESC_SZ * length descs))%N |}).
+Proof.
+  intros E Hs Hr Ha. destruct (image_memory_list_extents c dirs lg s' E Hs) as (descs & off & He & Hsl & Hd).
+  exists descs, off. split; [|split; [exact Hsl|exact Hd]].
+  rewrite He. unfold ThreadList.memory_list. rewrite (realised_extents _ _ _ _ Hr), Ha. reflexivity.
+Qed.
+Print Assumptions image_memory_list_of_world.
+
+(* ---------- world -> content -> image, for the thread list (C04 end to end) ---------- *)
+(* Whenever the content lists the threads the structural model retains for a world (those that could be attached and whose
+   stack pointer is not null, in enumeration order), the thread list of the final image carries exactly their ids, in that order:
+   a thread id is in the list iff such a thread exists, and no id appears twice when the kernel's ids are distinct. *)
+Theorem image_thread_ids_of_world c obs dirs lg s' :
+  image c empty_wst = Ok ((dirs, lg), s') -> small (blen s') ->
+  map it_tid (ic_threads c) = ThreadList.listed obs ->
+  let n := length (ic_threads c) in
+  exists rs : list (N * memdesc * loc),
+    slice (w_buf s') HEAD_LEN (4 + THREAD_SZ * n) = le 4 (N.of_nat n) ++ concat (map enc_thread3 rs) /\
+    map (fun r : N * memdesc * loc => fst (fst r)) rs = ThreadList.listed obs /\
+    (forall tid, In tid (map (fun r : N * memdesc * loc => fst (fst r)) rs) <->
+                 exists t, In t obs /\ ThreadList.t_tid t = tid /\ ThreadList.t_attached t = true /\ ThreadList.t_rsp t <> 0%N) /\
+    (NoDup (map ThreadList.t_tid obs) -> NoDup (map (fun r : N * memdesc * loc => fst (fst r)) rs)).
+Proof.
+  intros E Hs Hl n. destruct (image_thread_list c dirs lg s' E Hs) as (rs & blocks & cc & Hrel & Hsl & _). fold n in Hrel, Hsl.
+  pose proof (run_rel_tids _ _ _ _ _ _ _ Hrel) as Hids. rewrite Hl in Hids.
+  exists rs. split; [exact Hsl|]. split; [exact Hids|]. rewrite Hids. split.
+  - intro tid. apply ThreadListProofs.listed_iff.
+  - apply ThreadListProofs.listed_nodup.
+Qed.
+Print Assumptions image_thread_ids_of_world.
+
+(* ---------- world -> content -> image, for the exception record (C05 end to end) ---------- *)
+Lemma le_mod_w v : forall w, le w (v mod 256 ^ N.of_nat w) = le w v.
+Proof.
+  intro w. revert v. induction w as [|w IH]; intro v; [reflexivity|]. cbn [le].
+  rewrite Nat2N.inj_succ, N.pow_succ_r'. rewrite N.mod_mul_r by (try lia; apply N.pow_nonzero; lia).
+  assert (Hlt : (v mod 256 < 256)%N) by (apply N.mod_lt; lia).
+  set (q := ((v / 256) mod 256 ^ N.of_nat w)%N).
+  f_equal.
+  - rewrite (N.mul_comm 256 q), N.mod_add by lia. apply N.mod_small. exact Hlt.
+  - rewrite <- (IH (v / 256)%N). fold q. f_equal. rewrite (N.mul_comm 256 q), N.div_add by lia. rewrite (N.div_small (v mod 256) 256) by exact Hlt. reflexivity.
+Qed.
+Lemma le4_mod v : le 4 (v mod 2 ^ 32) = le 4 v.
+Proof. exact (le_mod_w v 4). Qed.
+
+Definition req_ip_of (cc : crashctx) : option N := match cc with CCtxAddr _ a => Some a | _ => None end.
+Definition ctx_of (cc : crashctx) : loc := match cc with CNone => zero_loc | CCtx l => l | CCtxAddr l _ => l end.
+
+(* the record's fields are the structural model's fields (signal number and code as 32-bit values), its context location is the
+   one carried over from the thread list *)
+Theorem image_exception_of_world c dirs lg s' :
+  image c empty_wst = Ok ((dirs, lg), s') -> small (blen s') ->
+  exists rs blocks cc off,
+    run_rel (thread_says c 248) (w_buf s') (ic_threads c) ([], CNone) rs (blocks, cc) /\
+    (let '(code, flags, addr) := ThreadList.exception_fields (ic_crash c) (req_ip_of cc) in
+     slice (w_buf s') off 168 = enc_exception (ic_blamed c) code flags addr (ctx_of cc)) /\
+    nth_error dirs 3 = Some (T_EXC, {| l_rva := N.of_nat off; l_size := 168 |}) /\
+    (* which context: none of the listed threads has the blamed id and none is recorded; or the context of the last listed thread
+       with the blamed id - and without a crash context the address is that thread's instruction pointer *)
+    ((cc = CNone /\ Forall (fun t => t_blamed c t = false) (ic_threads c)) \/
+     (exists t r, In (t, r) (combine (ic_threads c) rs) /\ t_blamed c t = true /\ designates 248 (w_buf s') (snd r) (it_ctx t) /\
+        ctx_of cc = snd r /\ (ic_crash c = None -> req_ip_of cc = Some (unle (slice (it_ctx t) 248 8))))).
+Proof.
+  intros E Hs. destruct (image_exception c dirs lg s' E Hs) as (rs & blocks & cc & off & Hrel & Hsl & Hd).
+  exists rs, blocks, cc, off. split; [exact Hrel|]. split; [|split; [exact Hd|]].
+  - unfold exception_fields in Hsl. unfold ThreadList.exception_fields, ThreadList.DUMP_REQUESTED, req_ip_of, ctx_of.
+    destruct (ic_crash c) as [[[sg cd] ad]|].
+    + (* the 32-bit fields: le 4 stores the value modulo 2^32 *)
+      rewrite Hsl. unfold enc_exception. rewrite (le4_mod sg), (le4_mod cd). reflexivity.
+    + rewrite Hsl. destruct cc; reflexivity.
+  - destruct (cc_says _ _ _ _ _ _ _ Hrel) as [(He & Hf)|(t & r & Hin & Hb & Hdes & He)]; cbn [snd] in He.
+    + left. split; [exact He|exact Hf].
+    + right. exists t, r. split; [exact Hin|]. split; [exact Hb|]. split; [exact Hdes|]. rewrite He.
+      unfold t_crash. destruct (ic_crash c); [split; [destruct (t_blamed c t); reflexivity|discriminate]|]. split; reflexivity.
+Qed.
+Print Assumptions image_exception_of_world.
+
+(* ---------- world -> content -> image, for the module list (C08 end to end) ---------- *)
+(* a module of the content realises a module of the structural model: same base, same 32-bit size, same identifier, and the
+   model's effective name *)
+Definition realises_module (m : imodule) (md : Modules.module) : Prop :=
+  im_base m = Modules.md_base md /\ im_size m = Modules.md_size md /\ im_id m = Modules.md_id md /\
+  Modules.md_name md = EffPath.Ok (im_name m).
+
+(* what one record of the final image says about the model's module *)
+Definition record_says_module (b : bytes) (r : imodule * loc * loc) (md : Modules.module) : Prop :=
+  let '(m, cv, nm) := r in
+  im_base m = Modules.md_base md /\ im_size m = Modules.md_size md /\
+  (exists name, Modules.md_name md = EffPath.Ok name /\ designates 248 b nm (md_string name)) /\
+  match Modules.md_id md with [] => cv = zero_loc | id => designates 248 b cv (le 4 CV_ELF ++ id) end.
+
+Lemma run_rel_modules b : forall ms u rs u' mds, run_rel (module_says 248) b ms u rs u' -> Forall2 realises_module ms mds ->
+  Forall2 (record_says_module b) rs mds.
+Proof.
+  intros ms u rs u' mds H. revert mds. induction H as [st|m ms st r st1 rs stF HP _ IH]; intros mds HF; inversion HF; subst; constructor.
+  - destruct r as [[m' cv] nm]. destruct HP as (Em & Hnm & Hcv). subst m'.
+    match goal with Hr : realises_module m ?y |- _ => destruct Hr as (Ra & Rb & Rc & Rd) end.
+    split; [exact Ra|]. split; [exact Rb|]. split; [exists (im_name m); split; [exact Rd|exact Hnm]|].
+    rewrite <- Rc. unfold CV_BYTES in Hcv. destruct (im_id m); exact Hcv.
+  - apply IH. assumption.
+Qed.
+
+(* End to end: whenever the modules of the content realise the structural model's module list for a world (the mappings that
+   qualify, then the caller's mappings verbatim), the module list of the final image has one record per model module, in the
+   model's order, with its base, its size, the location of exactly its effective name and - if it has an identifier - of exactly
+   its CodeView record. *)
+Theorem image_module_list_of_world c maps tbl users dirs lg s' :
+  image c empty_wst = Ok ((dirs, lg), s') -> small (blen s') ->
+  Forall2 realises_module (ic_modules c) (Modules.module_list maps tbl users) ->
+  exists rs off,
+    Forall2 (record_says_module (w_buf s')) rs (Modules.module_list maps tbl users) /\
+    slice (w_buf s') off (4 + MODULE_SZ * length rs) = le 4 (N.of_nat (length rs)) ++ concat (map enc_module rs) /\
+    In (T_MODULES, {| l_rva := N.of_nat off; l_size := (4 + N.of_nat (MODULE_SZ * length rs))%N |}) dirs.
+Proof.
+  intros E Hs HF. destruct (image_module_list c dirs lg s' E Hs) as (rs & off & Hrel & Hsl & Hd).
+  exists rs, off. split; [eapply run_rel_modules; eauto|]. split; [exact Hsl|exact Hd].
+Qed.
+Print Assumptions image_module_list_of_world.
+
+(* ---------- world -> content -> image, for the thread names (C15 end to end) ---------- *)
+Lemma run_rel_Forall2 {X R} (P : X -> unit -> R -> unit -> bytes -> Prop) b : forall xs u rs u',
+  run_rel P b xs u rs u' -> Forall2 (fun x r => P x tt r tt b) xs rs.
+Proof. intros xs u rs u' H. induction H as [st|x xs st r st1 rs stF HP _ IH]; constructor; [destruct st, st1; exact HP|exact IH]. Qed.
+
+(* Whenever the names of the content are the structural model's named threads (every listed thread whose name could be read,
+   in list order - threads without a readable name contribute nothing), the thread-names stream of the final image has exactly one
+   record per such thread, in that order, with that thread's id and the location of exactly its name. *)
+Theorem image_thread_names_of_world c (ths : list ThreadNames.thread) dirs lg s' :
+  image c empty_wst = Ok ((dirs, lg), s') -> small (blen s') -> ic_names c = ThreadNames.named ths ->
+  let n := length (ThreadNames.named ths) in
+  exists rs off,
+    Forall2 (fun x r => fst r = fst x /\ designates 248 (w_buf s') (snd r) (md_string (snd x))) (ThreadNames.named ths) rs /\
+    slice (w_buf s') off (4 + NAME_SZ * n) = le 4 (N.of_nat n) ++ concat (map enc_name rs) /\
+    In (T_NAMES, {| l_rva := N.of_nat off; l_size := (4 + N.of_nat (NAME_SZ * n))%N |}) dirs.
+Proof.
+  intros E Hs Hn n. destruct (image_thread_names c dirs lg s' E Hs) as (rs & off & Hrel & Hsl & Hd).
+  rewrite Hn in Hrel, Hsl, Hd. exists rs, off. split; [|split; [exact Hsl|exact Hd]].
+  exact (run_rel_Forall2 _ _ _ _ _ _ Hrel).
+Qed.
+Print Assumptions image_thread_names_of_world.
+
+(* ---------- world -> content -> image, for the memory-information list (C18 end to end) ---------- *)
+(* Whenever the records of the content are the structural model's records for the lines of the target's memory map (one per line:
+   extent, protection from the regenerated table, private / mapped), the stream of the final image is its header followed by
+   exactly their encodings, one per line, in line order. *)
+Theorem image_meminfo_of_world c (ls : list (N * N * N)) dirs lg s' :
+  image c empty_wst = Ok ((dirs, lg), s') -> small (blen s') -> ic_meminfo c = MemInfo.meminfo_list ls ->
+  let n := length ls in
+  exists off,
+    slice (w_buf s') off (16 + MEMINFO_SZ * n) =
+      (le 4 16 ++ le 4 48 ++ le 8 (N.of_nat n)) ++ concat (map enc_meminfo (MemInfo.meminfo_list ls)) /\
+    In (T_MEMINFO, {| l_rva := N.of_nat off; l_size := (16 + N.of_nat (MEMINFO_SZ * n))%N |}) dirs.
+Proof.
+  intros E Hs Hm n. destruct (image_meminfo c dirs lg s' E Hs) as (off & Hsl & Hd).
+  rewrite Hm in Hsl, Hd. unfold MemInfo.meminfo_list in Hsl, Hd at 1. rewrite map_length in Hsl, Hd. exists off. split; [exact Hsl|exact Hd].
+Qed.
+Print Assumptions image_meminfo_of_world.
